@@ -130,6 +130,24 @@ fn main() {
     let a: Vec<String> = std::env::args().collect();
     match a[1].as_str() {
         "breaker" => breaker(&a[2..]),
+        // recurse <ExprVariant>: evaluate an expression of that variant in a child process (a stack overflow aborts the process)
+        "recurse" => {
+            let st = std::process::Command::new(std::env::current_exe().unwrap()).args(["recurse-child", &a[2]]).output().unwrap();
+            if st.status.success() { println!("OK evaluating Expr::{} returns: {}", a[2], String::from_utf8_lossy(&st.stdout).trim()); }
+            else { println!("REPRODUCED evaluating Expr::{} kills the process ({:?}): {}", a[2], st.status, String::from_utf8_lossy(&st.stderr).lines().last().unwrap_or("")); std::process::exit(1); }
+        }
+        "recurse-child" => {
+            let id = || Box::new(Expr::Ident("x".into()));
+            let e = match a[2].as_str() {
+                "Timestamp" => Expr::Timestamp(0), "Duration" => Expr::Duration(1), "Null" => Expr::Null, "Bool" => Expr::Bool(true), "Int" => Expr::Int(1),
+                "Float" => Expr::Float(1.0), "Str" => Expr::Str("s".into()),
+                "OptionalMember" => Expr::OptionalMember { expr: id(), member: "m".into() },
+                "Lambda" => Expr::Lambda { params: vec!["p".into()], body: id() },
+                "Block" => Expr::Block { stmts: vec![], result: id() },
+                v => panic!("variant {v} not constructible here"),
+            };
+            println!("{:?}", eval_arm(&e));
+        }
         // cmp <binop|arm> <Op> <lclass> <l> <rclass> <r>
         "cmp" => {
             let op = binop(&a[3]);
